@@ -206,8 +206,8 @@ PROPS = {
     'C09': hist('C09', 'sampled runtime exploration with registration-call accounting: every register/reregister/unregister call the loop makes is attributed to an explicit operation or to the post-action window of the source whose process_events just ended; anything else is a foreign action; the window must contain exactly the calls the effective action asks for; pending action must be clear outside dispatches; all 16 BitOr pairs.', 'trusted: the harness ledger (a record of what the harness did and what the API returned), the instrumented wrapper source (forwards to the real calloop sources, logs, injects the faults a history asks for), poll(2)//proc/self/fdinfo as ground truth for fd readiness and registrations, the statistics hook; real time only through Instants taken by the harness around calls'),
     'C13': hist('C13', 'bounded-exhaustive family (every sequence of 1..5 quick / 1..6 thorough symbols of a 10-symbol idle alphabet) plus sampled histories of insert_idle/cancel/drop-handle from outside, from source callbacks and from idle callbacks, with dispatches that succeed or fail: once, after sources, insertion order, first Ok dispatch, cancelled never, idle-from-idle next dispatch, no idle on Err.', 'trusted: the harness ledger (a record of what the harness did and what the API returned), the instrumented wrapper source (forwards to the real calloop sources, logs, injects the faults a history asks for), poll(2)//proc/self/fdinfo as ground truth for fd readiness and registrations, the statistics hook; real time only through Instants taken by the harness around calls'),
     'C14': hist('C14', 'sampled runtime exploration with 1..n lifecycle sources (multi sub-token composites included), synthetic events, failing registrations: per dispatch exactly one before_sleep before the wait and one before_handle_events after it and before any process_events (order taken from yield points WaitPre/WaitPost), iterator contents against the processed events, lifecycle-set size at quiescent points.', 'trusted: the harness ledger (a record of what the harness did and what the API returned), the instrumented wrapper source (forwards to the real calloop sources, logs, injects the faults a history asks for), poll(2)//proc/self/fdinfo as ground truth for fd readiness and registrations, the statistics hook; real time only through Instants taken by the harness around calls'),
-    'C15': hist('C15', 'fault-injection exploration: the n-th register/reregister/unregister of a source fails before or after delegating, fds the poller rejects (regular file, duplicate, closed), failing adapt_io, callbacks returning errors; after each failed call the slot/lifecycle/timer/epoll tables must equal the snapshot taken before it, retries must succeed, later dispatches must not panic and nothing pending may be lost (recovery dispatches after every failing dispatch).', 'trusted: the harness ledger (a record of what the harness did and what the API returned), the instrumented wrapper source (forwards to the real calloop sources, logs, injects the faults a history asks for), poll(2)//proc/self/fdinfo as ground truth for fd readiness and registrations, the statistics hook; real time only through Instants taken by the harness around calls'),
-    'C16': hist('C16', "sampled runtime exploration comparing /proc/self/fdinfo of the loop's epoll fd with the ledger after every step and dispatch: every enabled source's fds with interest/mode mask and the source's key, nothing else; released fds (removed Generic, unwrapped adapter) are inserted again and must be accepted. Histories with a registration failure are not judged (the property excludes them).", 'trusted: the harness ledger (a record of what the harness did and what the API returned), the instrumented wrapper source (forwards to the real calloop sources, logs, injects the faults a history asks for), poll(2)//proc/self/fdinfo as ground truth for fd readiness and registrations, the statistics hook; real time only through Instants taken by the harness around calls'),
+    'C15': hist('C15', 'fault-injection exploration: the n-th register/reregister/unregister of a source fails before or after delegating, fds the poller rejects (regular file, duplicate, closed), failing adapt_io, callbacks returning errors; after each failed call the slot/lifecycle/timer/epoll tables must equal the snapshot taken before it, retries must succeed, later dispatches must not panic and nothing pending may be lost (recovery dispatches after every failing dispatch); registering a Dispatcher that is registered already must be rejected and leave everything, including the source\'s own event delivery, as it was.', 'trusted: the harness ledger (a record of what the harness did and what the API returned), the instrumented wrapper source (forwards to the real calloop sources, logs, injects the faults a history asks for), poll(2)//proc/self/fdinfo as ground truth for fd readiness and registrations, the statistics hook; real time only through Instants taken by the harness around calls'),
+    'C16': hist('C16', "sampled runtime exploration comparing /proc/self/fdinfo of the loop's epoll fd with the ledger after every step and dispatch: every enabled source's fds with interest/mode mask and the source's key, nothing else; released fds (removed Generic, unwrapped adapter) are inserted again and must be accepted. Interest and trigger mode of registered Generics are changed (Retarget + update) and the kernel's event mask compared; callbacks may own an Async adapter that borrows an fd outliving it (the entry must be gone once the adapter is). Histories with a registration failure are not judged (the property excludes them).", 'trusted: the harness ledger (a record of what the harness did and what the API returned), the instrumented wrapper source (forwards to the real calloop sources, logs, injects the faults a history asks for), poll(2)//proc/self/fdinfo as ground truth for fd readiness and registrations, the statistics hook; real time only through Instants taken by the harness around calls'),
     'C18': dict(
         legs=[dict(name='native', bin='trans', shards=16, timeout=dict(quick=300, thorough=3000)),
               dict(name='asan', bin='trans', flavour='asan', shards=16, tiers=('thorough',), sanitizer='asan', env=ASAN_ENV, timeout=dict(thorough=3000), args=dict(n=7, nreal=6)),
